@@ -299,6 +299,16 @@ def from_points_stream(ctx, n):
             src = [[x * s for x in p[:-1]] + [s] for p, s in zip(src, [Fraction(rng.choice([1, 2, -1])) for _ in src])]
             if not all(fdet([src[i] for i in idx]) != 0 for idx in itertools.combinations(range(dim + 2), dim + 1)):
                 continue
+        if k % 4 == 1:
+            # the target frame is the image of the source frame under a map that sends the affine origin to a point at infinity:
+            # the lower right entry of the matrix is 0 (no representative "with a 1 in the corner" exists)
+            while True:
+                M = rand_matrix(rng, dim + 1, "generic")
+                M[-1][-1] = Fraction(0)
+                if fdet(M) != 0:
+                    break
+            tgt = [[sum(M[i][j] * p[j] for j in range(dim + 1)) for i in range(dim + 1)] for p in src]
+            ctx.count("from_points:origin-to-infinity")
         reqs.append("frompoints " + " ".join(vec_tok(p) for p in src + tgt))
         todo.append((dim, src, tgt))
     answers = run_driver(reqs)
